@@ -1881,6 +1881,42 @@ fn select_known_variant(
     out
 }
 
+/// A foreign Go function bound at `-> unit` returns nothing, so its call cannot stand
+/// where Go expects a value: it is emitted as a statement and the unit value is supplied
+/// next to it (like `go`).
+fn is_result_less_extern_call(goenv: &GlobalGoEnv, expr: &anf::CExpr) -> bool {
+    matches!(
+        expr,
+        anf::CExpr::ECall {
+            func: anf::ImmExpr::ImmVar { name, .. },
+            ty: tast::Ty::TUnit,
+            ..
+        } if goenv.genv.value_env.extern_funcs.contains_key(name)
+    )
+}
+
+/// `var name T = call`, or for a result-less foreign function the call as a statement
+/// followed by `var name struct{} = struct{}{}`.
+fn declare_call_result(goenv: &GlobalGoEnv, name: &str, call: &anf::CExpr) -> Vec<goast::Stmt> {
+    if is_result_less_extern_call(goenv, call) {
+        return vec![
+            goast::Stmt::Expr(compile_cexpr(goenv, call)),
+            goast::Stmt::VarDecl {
+                name: go_ident(name),
+                ty: goty::GoType::TUnit,
+                value: Some(goast::Expr::Unit {
+                    ty: goty::GoType::TUnit,
+                }),
+            },
+        ];
+    }
+    vec![goast::Stmt::VarDecl {
+        name: go_ident(name),
+        ty: cexpr_ty(goenv, call),
+        value: Some(compile_cexpr(goenv, call)),
+    }]
+}
+
 fn compile_cexpr_effect(goenv: &GlobalGoEnv, expr: &anf::CExpr) -> Vec<goast::Stmt> {
     match expr {
         anf::CExpr::CImm { .. }
@@ -2023,11 +2059,7 @@ fn compile_aexpr_effect(goenv: &GlobalGoEnv, gensym: &Gensym, e: anf::AExpr) -> 
                     return out;
                 }
                 simple @ anf::CExpr::ECall { .. } => {
-                    out.push(goast::Stmt::VarDecl {
-                        name: go_ident(&name),
-                        ty: cexpr_ty(goenv, &simple),
-                        value: Some(compile_cexpr(goenv, &simple)),
-                    });
+                    out.extend(declare_call_result(goenv, &name, &simple));
                 }
                 simple => {
                     out.push(goast::Stmt::VarDecl {
@@ -2137,10 +2169,23 @@ fn compile_aexpr_assign(
                 value: compile_cexpr(goenv, &other),
             }],
             anf::CExpr::ECall { func, args, ty } => {
-                vec![goast::Stmt::Assignment {
-                    name: go_ident(target),
-                    value: compile_cexpr(goenv, &anf::CExpr::ECall { func, args, ty }),
-                }]
+                let call = anf::CExpr::ECall { func, args, ty };
+                if is_result_less_extern_call(goenv, &call) {
+                    vec![
+                        goast::Stmt::Expr(compile_cexpr(goenv, &call)),
+                        goast::Stmt::Assignment {
+                            name: go_ident(target),
+                            value: goast::Expr::Unit {
+                                ty: goty::GoType::TUnit,
+                            },
+                        },
+                    ]
+                } else {
+                    vec![goast::Stmt::Assignment {
+                        name: go_ident(target),
+                        value: compile_cexpr(goenv, &call),
+                    }]
+                }
             }
             anf::CExpr::EDynCall {
                 trait_name,
@@ -2213,11 +2258,7 @@ fn compile_aexpr_assign(
                     return out;
                 }
                 simple @ anf::CExpr::ECall { .. } => {
-                    out.push(goast::Stmt::VarDecl {
-                        name: go_ident(&name),
-                        ty: cexpr_ty(goenv, &simple),
-                        value: Some(compile_cexpr(goenv, &simple)),
-                    });
+                    out.extend(declare_call_result(goenv, &name, &simple));
                 }
                 simple => {
                     out.push(goast::Stmt::VarDecl {
@@ -2278,9 +2319,18 @@ fn compile_aexpr(goenv: &GlobalGoEnv, gensym: &Gensym, e: anf::AExpr) -> Vec<goa
                 });
             }
             _ => {
+                let result_less = is_result_less_extern_call(goenv, &expr);
                 let e = compile_cexpr(goenv, &expr);
                 match e.get_ty() {
                     goty::GoType::TVoid => {}
+                    _ if result_less => {
+                        stmts.push(goast::Stmt::Expr(e));
+                        stmts.push(goast::Stmt::Return {
+                            expr: Some(goast::Expr::Unit {
+                                ty: goty::GoType::TUnit,
+                            }),
+                        });
+                    }
                     _ => {
                         stmts.push(goast::Stmt::Return { expr: Some(e) });
                     }
@@ -2325,11 +2375,7 @@ fn compile_aexpr(goenv: &GlobalGoEnv, gensym: &Gensym, e: anf::AExpr) -> Vec<goa
                     return stmts;
                 }
                 simple @ anf::CExpr::ECall { .. } => {
-                    stmts.push(goast::Stmt::VarDecl {
-                        name: go_ident(&name),
-                        ty: cexpr_ty(goenv, &simple),
-                        value: Some(compile_cexpr(goenv, &simple)),
-                    });
+                    stmts.extend(declare_call_result(goenv, &name, &simple));
                 }
                 simple => {
                     stmts.push(goast::Stmt::VarDecl {
